@@ -156,6 +156,7 @@ type CallbackSpec struct {
 	Name     string // func type name or "Type.field"
 	Pure     bool
 	Closed   bool // every value of this function type is created by the module's own constructors
+	Writes   []int // indices of message arguments the callback may write (their abstract content becomes unknown)
 	Modifies []string
 	Props    []string
 }
@@ -366,6 +367,17 @@ func (ss *SpecSet) parseFile(file, pkg, src string) error {
 					cb.Pure = true
 				case "closed":
 					cb.Closed = true
+				case "writes":
+					// writes arg 1, arg 2
+					for _, m := range strings.Split(r, ",") {
+						f := strings.Fields(m)
+						if len(f) == 2 && f[0] == "arg" {
+							if n, err := strconv.Atoi(f[1]); err == nil {
+								cb.Writes = append(cb.Writes, n)
+							}
+						}
+					}
+					cb.Modifies = append(cb.Modifies, "msgs")
 				case "modifies":
 					for _, m := range strings.Split(r, ",") {
 						cb.Modifies = append(cb.Modifies, strings.TrimSpace(m))
